@@ -167,6 +167,8 @@ def getitem(it, o, k):
         py_raise(IndexError, "list index out of range")
     if isinstance(o, Sym) and o.kind == 'str':
         raise OutsideSubset("subscript of a symbolic string")
+    if type(o).__name__ == 'SStr':
+        return o.getitem(k)
     if isinstance(o, Obj) and o.has_field('__getitem__'):
         return it.call_value(o.field('__getitem__'), [k], {})
     if isinstance(o, Native):
@@ -523,6 +525,14 @@ def _str_method_symargs(it, s, name, args, kwargs):
         return replace_all(it, s, *args)
     if name == 'join':
         items = it.iterate(args[0])
+        if any(type(x).__name__ == 'SStr' for x in items):
+            from . import sstr
+            acc = ''
+            for i, x in enumerate(items):
+                if not (isinstance(x, str) or type(x).__name__ == 'SStr'):
+                    raise OutsideSubset("join of structured and flat symbolic strings")
+                acc = sstr.concat(sstr.concat(acc, s), x) if i else x
+            return sstr.simplify(acc)
         parts = []
         for i, x in enumerate(items):
             if i:
@@ -599,12 +609,14 @@ def b_isinstance(it, v, t):
 
 
 def b_int(it, v=0, *rest):
-    from .sstr import SStr, Num
+    from .sstr import SStr, Num, Lit as sstr_Lit
     if isinstance(v, SStr):
         if len(v.segs) == 1 and isinstance(v.segs[0], Num):
             return v.segs[0].n
         if v.is_literal():
             return _native(int, v.literal())
+        if any(isinstance(x, sstr_Lit) and any(ch not in '0123456789+-_ \t\n\r\x0b\x0c' for ch in x.text) for x in v.segs):
+            py_raise(ValueError, "invalid literal for int() with base 10")      # a character no integer literal holds
         raise OutsideSubset("int() of a structured string that is not a numeral")
     if rest:
         if _conc(v) and _conc(rest):
